@@ -171,7 +171,7 @@ theorem exVM_inv : QM.VM.Inv exProg exAnns 0 exVM := by
   · intro st h; cases h
   · intro st h; cases h
   · exact .normal exProg.functions[0] ⟨1, 1⟩ (.tailCall true)
-      ⟨rfl, rfl, by decide +kernel, rfl⟩ (by decide) rfl rfl (by intro st h; cases h)
+      ⟨rfl, fun _ => rfl, by decide +kernel, rfl⟩ (by decide) rfl rfl (by intro st h; cases h)
 
 /-- all hypotheses of `tail_loop_heap_bound` hold for it … -/
 example :
